@@ -265,7 +265,10 @@ func (e *Engine) checkQueuePreemption(st *Step, a *world.Alloc, app *world.App, 
 	}
 	_ = ineligibleKinds
 	// ---- C08: guarantees and effect ----
-	// attempt precondition: a queue on the asker's path has guaranteed resources it is still under
+	// attempt precondition: a queue on the asker's path has guaranteed resources it is still under. Necessary
+	// condition, independent of the order in which the core evaluates: with the ask added and the announced victims
+	// below that queue removed (usage net of what is already being preempted), the queue is not above its guaranteed
+	// amount in a type the ask needs. Certainly false only when this fails for every guaranteed queue of the path.
 	hasGuarantee, atOrAbove := false, true
 	pathDetail := ""
 	for _, q := range pathOf(pre, leaf) {
@@ -273,23 +276,30 @@ func (e *Engine) checkQueuePreemption(st *Step, a *world.Alloc, app *world.App, 
 			continue
 		}
 		hasGuarantee = true
-		// "still under": only certainly false when every type the ask needs is guaranteed here and already reached
+		below := res.R{}
+		for _, v := range victims {
+			if va := pre.Apps[victimApp[v.Key]]; va != nil && isAncestorOrSelf(q.Path, va.Queue) {
+				below.AddTo(v.Res)
+			}
+		}
+		exceeded := false
 		for t, need := range a.Res {
 			if need <= 0 {
 				continue
 			}
-			// usage net of what is already being preempted, as the core's own snapshot counts it
-			g, ok := q.Guaranteed[t]
-			if !ok || q.Allocated[t]-q.Preempting[t] < g {
-				atOrAbove = false
+			if g, ok := q.Guaranteed[t]; ok && q.Allocated[t]-q.Preempting[t]+need-below[t] > g {
+				exceeded = true
 			}
 		}
-		pathDetail += fmt.Sprintf(" %s guaranteed %s allocated %s preempting %s;", q.Path, q.Guaranteed, q.Allocated, q.Preempting)
+		if !exceeded {
+			atOrAbove = false
+		}
+		pathDetail += fmt.Sprintf(" %s guaranteed %s allocated %s preempting %s victims below it %s;", q.Path, q.Guaranteed, q.Allocated, q.Preempting, below)
 	}
 	if !hasGuarantee {
 		e.violate("C08", "preemption-without-guarantee", "", fmt.Sprintf("queue preemption for ask %s although no queue on the path of %s has guaranteed resources", a.Key, leaf))
 	} else if atOrAbove {
-		e.violate("C08", "asker-queue-not-under-guarantee", "", fmt.Sprintf("queue preemption for ask %s %s although every guaranteed queue on the path of %s has reached its guaranteed share in every type the ask needs:%s", a.Key, a.Res, leaf, pathDetail))
+		e.violate("C08", "asker-queue-not-under-guarantee", "", fmt.Sprintf("queue preemption for ask %s %s although every guaranteed queue on the path of %s is above its guaranteed share in a type the ask needs even with the victims removed:%s", a.Key, a.Res, leaf, pathDetail))
 	}
 	// victim queues above guarantee
 	byLeaf := map[string][]*world.Alloc{}
